@@ -226,6 +226,9 @@ def run(ctx):
         if not ctx.mine(i):
             continue
         prog = gen_c18_program(base + i)
+        if i % 3 == 2 and i % 2 == 0 and not any(st['op'] == 'record_data' for st in prog['body']):
+            # (S3 programs: every second one records a datum under the key the S3 layout reserves)
+            prog['body'].insert(0, {'op': 'record_data', 'key': '_metadata', 'value': {'lit': {'user': 'blob'}}})
         # the recording process does not always run in UTC
         zone = [None, 'Asia/Tokyo', None, 'America/Los_Angeles', None, 'Asia/Kolkata'][i % 6]
         with process_zone(zone):
@@ -239,5 +242,7 @@ def run(ctx):
 
 def replay(ctx, w):
     prog = gen_c18_program(w['gen_seed'])
+    if w.get('cassette') == 's3' and not any(st['op'] == 'record_data' for st in prog['body']):
+        prog['body'].insert(0, {'op': 'record_data', 'key': '_metadata', 'value': {'lit': {'user': 'blob'}}})
     with process_zone(w.get('zone')):
         run_program(ctx, prog, random.Random(0), {'memory': 0, 'file': 1, 's3': 2}.get(w.get('cassette'), 0))
